@@ -77,6 +77,9 @@ def gen_history(rf, nscripts, kinds, steps, overlap, sweep=None):
             if state.get(o) == "finalized":
                 faults.add("setup_after_finalize")
             ops = [["poison", rf.choice([0, 0x7f, 0xff])], ["setup"]]
+            if nscripts > 1 and rf.chance(0.15):
+                ops.append(["script_touch", rf.choice([x for x in range(nscripts) if x != s])])
+                faults.add("caller_reuses_script_object_after_setup")
             if rf.chance(0.5):
                 ops.append(["is_complete"])
             new_ep(o, s, ops, new=(rf.chance(0.3) and state.get(o) != "open"))
@@ -98,9 +101,10 @@ def gen_history(rf, nscripts, kinds, steps, overlap, sweep=None):
             plan = [_loop_op(rf, steps[s]) for _ in range(rf.randint(1, 3))]
             if not any(p[0] == "iterate" or p[0] == "run" or (p[0] == "iterate_n" and p[1] >= 1) for p in plan):
                 plan.append(["iterate"])
-            ops = [["drive", plan, CAP], ["is_complete"]]
+            ops = [["drive", plan, CAP], ["is_complete"], ["observe"]]
             for _ in range(rf.randint(0, 3)):
                 ops.append(_loop_op(rf, steps[s]))
+                ops.append(["observe"])
                 faults.add("F8_calls_after_completion")
             ops.append(["is_complete"])
             new_ep(o, s, ops)
@@ -348,6 +352,7 @@ def check(case, results):
     known_hits = []
     evmap = {(ev["e"], ev["i"]): ev for ev in res.events}
     stopped = False
+    keep_obs = False
     for ei, ep in enumerate(lt["episodes"]):
         if stopped:
             break
@@ -429,6 +434,8 @@ def check(case, results):
                         kk = min(kk, N[g["script"]] - g["iters"])
                         g["iters"] += kk
                         g["complete"] = g["iters"] >= N[g["script"]]
+                if O.state == "complete" and k == 0:
+                    keep_obs = True
                 if pred is not None:
                     nchecked += 1
                     if ev["ret"] != pred:
@@ -439,7 +446,9 @@ def check(case, results):
                     if name == "run" and ev.get("underflow"):
                         viol.append(dict(ctx, oracle="C10.run-honours-clock",
                                          detail="run() kept iterating after the clock had reached the slice length"))
-                last_obs = None
+                if not keep_obs:
+                    last_obs = None
+                keep_obs = False
             elif name == "drive":
                 if O.state in ("active", "complete"):
                     if not ev["done"]:
@@ -469,7 +478,8 @@ def check(case, results):
                 cur = (ev["t"], ev["x"], ev["ns"])
                 if last_obs is not None and last_obs[0] is O and last_obs[1] != cur:
                     v = dict(ctx, oracle="C10.read-only-calls",
-                             detail="engine time/state/records changed across read-only calls")
+                             detail="engine time/state/records changed across read-only calls or across loop calls made "
+                                    "after completion (t %r -> %r, records %r -> %r)" % (last_obs[1][0], cur[0], last_obs[1][2], cur[2]))
                     (known_hits if foreign else viol).append(v)
                 last_obs = (O, cur)
                 continue
@@ -498,7 +508,7 @@ def check(case, results):
                 last_obs = None
             if name not in ("observe",):
                 # keep the observation chain only across read-only calls
-                if name not in ("progress", "is_complete", "output"):
+                if name not in ("progress", "is_complete", "output") and not (name in ("iterate", "iterate_n", "run") and O.state == "complete"):
                     last_obs = None
     # a crash/timeout while a tainted object is operated in an overlap history: KF-1 by construction
     if res.status in ("crash", "timeout") and res.mark is not None and meta["overlap"]:
